@@ -315,6 +315,7 @@ impl proto::Units {
 impl Default for AbstractPort { fn default() -> (r: Self) ensures r.net@.len() == 0, r.shapes@ == Map::<LayerKey, Vec<Shape>>::empty() { AbstractPort { net: String::new(), shapes: HashMap::new() } } }
 impl Default for Abstract { fn default() -> (r: Self) ensures r.name@.len() == 0, r.outline.points@.len() == 0, r.ports@.len() == 0, r.blockages@ == Map::<LayerKey, Vec<Shape>>::empty() { Abstract { name: String::new(), outline: Polygon { points: Vec::new() }, ports: Vec::new(), blockages: HashMap::new() } } }
 impl Cell {
+    //@ pin layout21raw/src/data.rs :: impl Cell :: fn new @e4b081c1
     /// model of Cell::new(impl Into<String>): the name, no views (`..Default::default()`)
     #[verifier::external_body]
     pub fn new(name: &String) -> (r: Self) ensures r.name@ == name@, r.abs is None, r.layout is None { unimplemented!() }
